@@ -1,32 +1,49 @@
 import Goflow.Gen.Prng
 import Goflow.Conc.Receiver
+import Goflow.Conc.ReceiverFaults
 namespace Goflow.Gen.C18
-open Goflow Goflow.Gen Goflow.Conc.Receiver
+open Goflow Goflow.Gen Goflow.Conc.Receiver Goflow.Conc.ReceiverFaults
 
-def seqs : Nat → List (List Call)
+/-- 'S' Start, 'T' Stop, 'F' a Start while a foreign socket (without SO_REUSEPORT) holds the port -/
+def seqs (alphabet : List Char) : Nat → List (List Char)
   | 0 => [[]]
-  | n + 1 => (seqs n).flatMap fun s => [Call.start :: s, Call.stop :: s]
+  | n + 1 => (seqs alphabet n).flatMap fun s => alphabet.map (· :: s)
 
-def callStr (cs : List Call) : String := String.ofList (cs.map fun c => match c with | .start => 'S' | .stop => 'T')
+def callsOf (cs : List Char) : List CallF :=
+  (cs.zip (List.range cs.length)).map fun (c, i) => if c = 'S' then .start (i + 1) else if c = 'F' then .startFail (i + 1) 0 else .stop
 
-def specLine (cs : List Call) : String :=
-  "res ok results=" ++ ",".intercalate ((specResults false cs).map fun e => if e then "1" else "0") ++ " corrupt=0 leak=0 rebind=1 dead=0 stolen=0"
+/-- the specification: a receiver is stopped or started; Start on a started one, Stop on a stopped one and a Start that
+    cannot bind report an error and change nothing -/
+def specLine (cs : List Char) : String :=
+  "res ok results=" ++ ",".intercalate (((specRunF none (callsOf cs)).2).map fun r => match r with | .ok => "0" | _ => "1") ++
+    " corrupt=0 leak=0 rebind=1 dead=0 stolen=0"
 
-/-- every Start/Stop sequence of length 1..maxLen, on rotating receiver configurations; plus drain runs -/
+/-- every Start/Stop sequence of length 1..maxLen, on rotating receiver configurations; sequences with failing Starts;
+    plus drain runs -/
 def gen (maxLen : Nat) : G (List String) := do
   let mut out : List String := []
   let cfgs := ["1 1 0 1", "2 4 8 0", "4 8 1000 1", "1 2 1 0", "3 3 0 0"]
   let mut i := 0
   for len in [1:maxLen + 1] do
-    for s in seqs len do
+    for s in seqs ['S', 'T'] len do
       let cfg := cfgs.getD (i % cfgs.length) "1 1 8 1"
       i := i + 1
-      out := out ++ ["updown " ++ cfg ++ " " ++ callStr s, "expect " ++ specLine s]
+      out := out ++ ["updown " ++ cfg ++ " " ++ String.ofList s, "expect " ++ specLine s]
+  -- every sequence of up to min maxLen 4 calls with at least one Start that cannot bind, and longer random ones
+  for len in [1:min maxLen 4 + 1] do
+    for s in (seqs ['S', 'T', 'F'] len).filter (·.contains 'F') do
+      let cfg := cfgs.getD (i % cfgs.length) "1 1 8 1"
+      i := i + 1
+      out := out ++ ["updown " ++ cfg ++ " " ++ String.ofList s, "expect " ++ specLine s]
+  for _ in [0:2 * maxLen] do
+    let s ← listOf (← range 5 12) (pick ['S', 'T', 'F', 'F', 'S', 'T'])
+    let cfg ← pick cfgs
+    out := out ++ ["updown " ++ cfg ++ " " ++ String.ofList s, "expect " ++ specLine s]
   -- many Start / Stop cycles under continuous traffic on the synchronous configurations (blocking, queue size 0): a reader
   -- that picks a datagram up while Stop is in progress must not keep Stop from returning
   for cfg in ["1 1 0 1", "2 2 0 1", "1 4 0 1", "2 1 1 1"] do
-    let cyc : List Call := (List.replicate 25 [Call.start, Call.stop]).flatten
-    out := out ++ ["updown " ++ cfg ++ " " ++ callStr cyc, "expect " ++ specLine cyc]
+    let cyc : List Char := (List.replicate 25 ['S', 'T']).flatten
+    out := out ++ ["updown " ++ cfg ++ " " ++ String.ofList cyc, "expect " ++ specLine cyc]
   -- a Start that cannot bind its port (held by a socket without SO_REUSEPORT)
   for cfg in ["1 1 8 0", "2 2 0 1", "4 2 100 1"] do
     out := out ++ ["startbusy " ++ cfg, "expect res ok busy=err later=ok alive=yes stop=ok"]
